@@ -6,6 +6,7 @@ import (
 	"encoding/json"
 	"errors"
 	"fmt"
+	"io"
 	"strings"
 
 	"diagonal.works/b6/geojson"
@@ -760,7 +761,19 @@ func (g GeoJSONExpression) ToProto() (*pb.NodeProto, error) {
 }
 
 func GeoJSONExpressionFromProto(node *pb.NodeProto) (Expression, error) {
-	panic("Unimplemented")
+	reader, err := gzip.NewReader(bytes.NewReader(node.GetLiteral().GetGeoJSONValue()))
+	if err != nil {
+		return Expression{}, err
+	}
+	unzipped, err := io.ReadAll(reader)
+	if err != nil {
+		return Expression{}, err
+	}
+	g, err := geojson.Unmarshal(unzipped)
+	if err != nil {
+		return Expression{}, err
+	}
+	return Expression{AnyExpression: GeoJSONExpression{GeoJSON: g}}, nil
 }
 
 func (g GeoJSONExpression) Clone() Expression {
